@@ -1,1 +1,162 @@
-fn main(){}
+//! dv-probe: exposes the public diplomat_core API in-process.
+//! stdin: one JSON request per line {"id", "src", "support": {flag: bool}, "backend": str, "unsafe_refs": bool, "borrow": bool}
+//! stdout: one JSON reply per line {"id", "status": "ok"|"errors"|"panic", "errors": [[ctx,msg]], "panic": msg, "borrow": {...}}
+use diplomat_core::hir::borrowing_param::LifetimeEdgeKind;
+use diplomat_core::hir::{self, BackendAttrSupport, BasicAttributeValidator, LoweringConfig, TypeContext};
+use serde_json::{json, Value};
+use std::io::{BufRead, Write};
+use std::panic::{catch_unwind, AssertUnwindSafe};
+
+fn support_from(v: &Value) -> BackendAttrSupport {
+    let mut a = BackendAttrSupport::default();
+    let g = |k: &str| v.get(k).and_then(|x| x.as_bool()).unwrap_or(false);
+    a.namespacing = g("namespacing");
+    a.memory_sharing = g("memory_sharing");
+    a.non_exhaustive_structs = g("non_exhaustive_structs");
+    a.method_overloading = g("method_overloading");
+    a.utf8_strings = g("utf8_strings");
+    a.utf16_strings = g("utf16_strings");
+    a.static_slices = g("static_slices");
+    a.constructors = g("constructors");
+    a.named_constructors = g("named_constructors");
+    a.fallible_constructors = g("fallible_constructors");
+    a.accessors = g("accessors");
+    a.static_accessors = g("static_accessors");
+    a.stringifiers = g("stringifiers");
+    a.comparators = g("comparators");
+    a.iterators = g("iterators");
+    a.iterables = g("iterables");
+    a.indexing = g("indexing");
+    a.arithmetic = g("arithmetic");
+    a.option = g("option");
+    a.callbacks = g("callbacks");
+    a.traits = g("traits");
+    a.custom_errors = g("custom_errors");
+    a.traits_are_send = g("traits_are_send");
+    a.traits_are_sync = g("traits_are_sync");
+    a
+}
+
+fn borrow_info(tcx: &TypeContext) -> Value {
+    let mut out = serde_json::Map::new();
+    for (_id, ty) in tcx.all_types() {
+        for m in ty.methods() {
+            let key = format!("{}::{}", ty.name().as_str(), m.name.as_str());
+            let r = catch_unwind(AssertUnwindSafe(|| {
+                let mut visitor = m.borrowing_param_visitor(tcx, false);
+                let mut kinds = serde_json::Map::new();
+                if let Some(s) = &m.param_self {
+                    let info = visitor.visit_param(&s.ty.clone().into(), "self");
+                    kinds.insert("self".into(), json!(format!("{:?}", info).split('(').next().unwrap_or("").to_string()));
+                }
+                for p in &m.params {
+                    let info = visitor.visit_param(&p.ty, p.name.as_str());
+                    kinds.insert(p.name.as_str().into(), json!(format!("{:?}", info).split('(').next().unwrap_or("").to_string()));
+                }
+                let mut map = serde_json::Map::new();
+                for (lt, info) in visitor.borrow_map() {
+                    let name = m.lifetime_env.fmt_lifetime(lt).to_string();
+                    let mut edges = vec![];
+                    for e in &info.incoming_edges {
+                        let k = match e.kind {
+                            LifetimeEdgeKind::OpaqueParam => json!({"param": e.param_name, "kind": "opaque"}),
+                            LifetimeEdgeKind::SliceParam => json!({"param": e.param_name, "kind": "slice"}),
+                            LifetimeEdgeKind::StructLifetime(env, def_lt, is_opt) => {
+                                json!({"param": e.param_name, "kind": "struct", "slot": env.fmt_lifetime(def_lt).to_string(), "optional": is_opt})
+                            }
+                            _ => json!({"param": e.param_name, "kind": "unknown"}),
+                        };
+                        edges.push(k);
+                    }
+                    let longer: Vec<String> = info.all_longer_lifetimes.iter().map(|l| m.lifetime_env.fmt_lifetime(*l).to_string()).collect();
+                    map.insert(name, json!({"edges": edges, "longer": longer}));
+                }
+                json!({"map": map, "param_kinds": kinds})
+            }));
+            match r {
+                Ok(v) => {
+                    out.insert(key, v);
+                }
+                Err(e) => {
+                    let msg = e.downcast_ref::<String>().cloned().or_else(|| e.downcast_ref::<&str>().map(|s| s.to_string())).unwrap_or_default();
+                    out.insert(key, json!({"panic": msg}));
+                }
+            }
+        }
+    }
+    Value::Object(out)
+}
+
+fn handle(req: &Value) -> Value {
+    let id = req["id"].clone();
+    let src = req["src"].as_str().unwrap_or("");
+    let r = catch_unwind(AssertUnwindSafe(|| {
+        let file: syn::File = match syn::parse_str(src) {
+            Ok(f) => f,
+            Err(e) => return json!({"id": id, "status": "syn-error", "panic": e.to_string()}),
+        };
+        let mut v = BasicAttributeValidator::new(req["backend"].as_str().unwrap_or("dvprobe"));
+        v.support = support_from(&req["support"]);
+        if let Some(others) = req["other_names"].as_array() {
+            v.other_backend_names = others.iter().filter_map(|x| x.as_str().map(|s| s.to_string())).collect();
+        }
+        let mut cfg = LoweringConfig::default();
+        cfg.unsafe_references_in_callbacks = req["unsafe_refs"].as_bool().unwrap_or(false);
+        match TypeContext::from_syn(&file, cfg, v) {
+            Ok(tcx) => {
+                let mut rep = json!({"id": id, "status": "ok"});
+                if req["borrow"].as_bool().unwrap_or(false) {
+                    rep["borrow"] = borrow_info(&tcx);
+                }
+                if req["list"].as_bool().unwrap_or(false) {
+                    let mut items = vec![];
+                    for (_i, ty) in tcx.all_types() {
+                        let ms: Vec<String> = ty.methods().iter().map(|m| m.name.as_str().to_string()).collect();
+                        items.push(json!({"name": ty.name().as_str(), "disabled": ty.attrs().disable, "methods": ms}));
+                    }
+                    rep["types"] = json!(items);
+                }
+                rep
+            }
+            Err(errs) => {
+                let es: Vec<Value> = errs.iter().map(|(c, e)| json!([c.to_string(), e.to_string()])).collect();
+                json!({"id": id, "status": "errors", "errors": es})
+            }
+        }
+    }));
+    match r {
+        Ok(v) => v,
+        Err(e) => {
+            let msg = e.downcast_ref::<String>().cloned().or_else(|| e.downcast_ref::<&str>().map(|s| s.to_string())).unwrap_or_default();
+            json!({"id": req["id"], "status": "panic", "panic": msg})
+        }
+    }
+}
+
+fn main() {
+    std::panic::set_hook(Box::new(|_| {}));
+    let stdin = std::io::stdin();
+    let stdout = std::io::stdout();
+    let mut out = stdout.lock();
+    for line in stdin.lock().lines() {
+        let line = match line {
+            Ok(l) => l,
+            Err(_) => break,
+        };
+        if line.trim().is_empty() {
+            continue;
+        }
+        let req: Value = match serde_json::from_str(&line) {
+            Ok(v) => v,
+            Err(e) => {
+                writeln!(out, "{}", json!({"status": "bad-request", "panic": e.to_string()})).ok();
+                out.flush().ok();
+                continue;
+            }
+        };
+        let rep = handle(&req);
+        writeln!(out, "{}", rep).ok();
+        out.flush().ok();
+    }
+    let _ = hir::LoweringConfig::default();
+}
